@@ -304,6 +304,12 @@ def cases():
             l2 = l1 if k == 0 else families.scatter_layouts(m, rnd, 3)
             out.append({'label': '%s/k%d' % (m.name, k), 'mesh': m, 'fields1': F1[(i + k) % 3], 'fields2': F2[(i + k) % 3], 'layout1': l1, 'layout2': l2,
                         'geom': (i + k) % 3, 'mismatch': k == 0, 'full': k == 0})
+    # field counts with one and two digits: 4 + 8 = 12 fields out, and a 12-field first input with a short selection; identical layouts
+    # (the file-by-file mode) and different ones
+    F12 = ['p%d' % i for i in range(12)]
+    for j, (l1, l2) in enumerate([([(0, 0), (0, 1), (0, 2)], [(0, 0), (0, 1), (0, 2)]), ([(0, 1), (0, 0), (1, 0)], [(0, 1), (0, 0), (1, 0)]), (pairs[3][0], pairs[3][1])]):
+        out.append({'label': '3box/4+8-fields/%d' % j, 'mesh': m3, 'fields1': ['a', 'b', 'c', 'd'], 'fields2': ['q%d' % i for i in range(8)], 'layout1': [l1], 'layout2': [l2], 'geom': j % 3})
+        out.append({'label': '3box/12+1-fields/%d' % j, 'mesh': m3, 'fields1': F12, 'fields2': ['z'], 'layout1': [l1], 'layout2': [l2], 'geom': j % 3, 'full': True})
     out.append({'label': '3box/17-digit-geometry', 'mesh': m3, 'fields1': F1[0], 'fields2': F2[0], 'layout1': [pairs[2][0]], 'layout2': [pairs[2][1]], 'geom': 3})
     # level directories under other names than Level_n (each input its own)
     for j, (l1, l2) in enumerate([pairs[1], pairs[len(pairs) // 2], pairs[-1]]):
